@@ -432,6 +432,10 @@ def units(tier, seed):
 def replay(ob):
     rp = ob.get('replay') or {}
     if rp.get('kind') != 'cell-sizes':
+        from contracts import replay_c14
+        r = replay_c14.replay(ob)
+        if r is not None:
+            return r
         return {'reproduced': False, 'detail': 'no native concretisation for this obligation kind'}
     import os
     import sys
